@@ -1187,4 +1187,157 @@ theorem absReg_after_remove (id : Id) (pre post : List Label) (h : NoAdd id post
   apply foldl_absStep_none id post _ h
   simp [absStep, upd]
 
+/-! ### the STUN event channel only ever holds events that carry their parsed message -/
+
+def HasMsg (q : List StunEvent) : Prop := ∀ e ∈ q, e.message.isSome = true
+
+theorem decodeStun_message {v : StunView} {e : StunEvent} (h : decodeStun v = some e) :
+    e.message.isSome = true := by
+  unfold decodeStun at h
+  split at h
+  · cases h
+  · split at h
+    · cases h; rfl
+    · cases h
+
+theorem classify_stun_message (H : Bytes → Bytes) (hH : ∀ x, 0 < (H x).length) (r : Registry) (p : PktIn)
+    (e : StunEvent) (h : classify H r p = .ok (.stun e)) : e.message.isSome = true := by
+  rcases classify_spec H hH r p with ⟨a, hs, h'⟩ | ⟨_, ⟨_, h'⟩ | ⟨src, e', t, n, _, _, _, h'⟩⟩
+  · rw [h'] at h; injection h with h; injection h with h; subst h
+    exact decodeStun_message hs
+  · rw [h'] at h; cases h
+  · rw [h'] at h; cases h
+
+theorem offer_hasMsg (q : List StunEvent) (cap : Nat) (e : StunEvent) (hq : HasMsg q)
+    (he : e.message.isSome = true) : HasMsg (offer q cap e) := by
+  unfold offer
+  split
+  · intro x hx
+    rcases List.mem_append.mp hx with hx | hx
+    · exact hq x hx
+    · rw [List.mem_singleton] at hx; rw [hx]; exact he
+  · exact hq
+
+theorem readFrom_hasMsg (H : Bytes → Bytes) (hH : ∀ x, 0 < (H x).length) :
+    ∀ (ins : List Input) (c c' : Conn) (r : Ret) (k : Nat), HasMsg c.stun →
+      readFrom H c ins = .ok (c', r, k) → HasMsg c'.stun := by
+  intro ins
+  induction ins with
+  | nil => intro c c' r k hc h; simp [readFrom] at h; rw [← h.1]; exact hc
+  | cons i rest ih =>
+    intro c c' r k hc h
+    cases i with
+    | err => simp [readFrom] at h; rw [← h.1]; exact hc
+    | pkt p =>
+      obtain ⟨v, hv⟩ := classify_total H hH c.reg p
+      cases v with
+      | pass => simp [readFrom, hv] at h; rw [← h.1]; exact hc
+      | stun e =>
+        have he := classify_stun_message H hH c.reg p e hv
+        simp only [readFrom, hv] at h
+        cases hr : readFrom H { c with stun := offer c.stun c.cap e } rest with
+        | ok x =>
+          obtain ⟨c2, r2, k2⟩ := x
+          rw [hr] at h
+          simp at h
+          rw [← h.1]
+          exact ih _ c2 r2 k2 (offer_hasMsg _ _ _ hc he) hr
+        | reject => rw [hr] at h; cases h
+        | panic => rw [hr] at h; cases h
+      | punch ev =>
+        simp only [readFrom, hv] at h
+        cases hr : readFrom H { c with events := offer c.events c.cap ev } rest with
+        | ok x =>
+          obtain ⟨c2, r2, k2⟩ := x
+          rw [hr] at h
+          simp at h
+          rw [← h.1]
+          exact ih { c with events := offer c.events c.cap ev } c2 r2 k2 hc hr
+        | reject => rw [hr] at h; cases h
+        | panic => rw [hr] at h; cases h
+
+theorem step_hasMsg (H : Bytes → Bytes) (hH : ∀ x, 0 < (H x).length) (s : Sys) (l : Label)
+    (h : HasMsg s.conn.stun) : HasMsg (step H s l).conn.stun := by
+  cases l with
+  | add id m =>
+    simp only [step]
+    cases addAttempt s.conn.reg id m <;> exact h
+  | remove id => exact h
+  | recv p =>
+    simp only [step]
+    cases s.held <;> exact h
+  | scan =>
+    simp only [step]
+    cases hh : s.held with
+    | none => exact h
+    | some p =>
+      simp only []
+      obtain ⟨v, hv⟩ := classify_total H hH s.conn.reg p
+      rw [hv]
+      cases v with
+      | pass => exact h
+      | punch ev => exact h
+      | stun e => exact offer_hasMsg _ _ _ h (classify_stun_message H hH _ p e hv)
+
+theorem run_hasMsg (H : Bytes → Bytes) (hH : ∀ x, 0 < (H x).length) :
+    ∀ (sched : List Label) (s : Sys), HasMsg s.conn.stun → HasMsg (run H s sched).conn.stun := by
+  intro sched
+  induction sched with
+  | nil => intro s h; exact h
+  | cons l ls ih =>
+    intro s h
+    simp only [run, List.foldl_cons]
+    exact ih _ (step_hasMsg H hH s l h)
+
+/-- on events that carry their message the consumer never faults; what it leaves on the channel
+    still carries messages -/
+theorem consumeStun_total : ∀ (evs : List StunEvent) (txs : List Bytes) (res : List AddrPort),
+    HasMsg evs → ∃ txs' res' left, consumeStun txs res evs = .ok (txs', res', left) ∧ HasMsg left := by
+  intro evs
+  induction evs with
+  | nil =>
+    intro txs res h
+    cases txs with
+    | nil => exact ⟨[], res, [], by simp [consumeStun], h⟩
+    | cons t ts => exact ⟨t :: ts, res, [], by simp [consumeStun], h⟩
+  | cons ev rest ih =>
+    intro txs res h
+    have hrest : HasMsg rest := fun e he => h e (List.mem_cons_of_mem _ he)
+    cases txs with
+    | nil => exact ⟨[], res, ev :: rest, by simp [consumeStun], h⟩
+    | cons t ts =>
+      have hev := h ev (List.mem_cons_self ..)
+      cases hm : ev.message with
+      | none => rw [hm] at hev; cases hev
+      | some id =>
+        simp only [consumeStun, hm]
+        split
+        · exact ih _ _ hrest
+        · exact ih _ _ hrest
+
+theorem discover_total (H : Bytes → Bytes) (hH : ∀ x, 0 < (H x).length) (c : Conn) (txs : List Bytes)
+    (answer : Option PktIn) (hc : HasMsg c.stun) :
+    ∃ c' r, discover H c txs answer = .ok (c', r) ∧ HasMsg c'.stun ∧ c'.reg = c.reg := by
+  obtain ⟨txs1, res1, left1, h1, hl1⟩ := consumeStun_total c.stun txs [] hc
+  unfold discover
+  rw [h1]
+  simp only []
+  cases txs1 with
+  | nil => exact ⟨_, _, rfl, hl1, rfl⟩
+  | cons t ts =>
+    cases answer with
+    | none => exact ⟨_, _, rfl, hl1, rfl⟩
+    | some p =>
+      simp only []
+      obtain ⟨pre, rest, c2, _, _, hreg, _, hcase⟩ := readFrom_spec H hH [.pkt p] { c with stun := left1 }
+      have hr : ∃ r k, readFrom H { c with stun := left1 } [.pkt p] = .ok (c2, r, k) := by
+        rcases hcase with ⟨_, h⟩ | ⟨_, _, h⟩ | ⟨_, _, _, _, h⟩ <;> exact ⟨_, _, h⟩
+      obtain ⟨r, k, hr⟩ := hr
+      have h2 := readFrom_hasMsg H hH _ _ c2 r k (by exact hl1) hr
+      obtain ⟨txs2, res2, left2, h3, hl2⟩ := consumeStun_total c2.stun (t :: ts) res1 h2
+      rw [hr]
+      simp only [h3]
+      exact ⟨_, _, rfl, hl2, hreg⟩
+
+
 end Hy.Punch
